@@ -8,7 +8,7 @@
    the policy is a write-free process" - is the abstraction performed by the
    translator harness/effects.py and is part of the trusted base. *)
 From Coq Require Import List String.
-From Psec Require Import Proofs.Interleave Proofs.EffectPolicy Gen.Effects.
+From Psec Require Import Proofs.Interleave Proofs.EffectPolicy Proofs.EffectClosure Gen.Effects.
 Import ListNotations.
 Open Scope string_scope.
 
@@ -54,6 +54,33 @@ Theorem C18_api_is_not_mutator :
       "tr31.Header.__str__"; "tr31.Blocks.dump" ] = true.
 Proof. vm_compute. reflexivity. Qed.
 Print Assumptions C18_api_is_not_mutator.
+
+(* ---- whole call trees.  [policy_non_mutator] is local to one function; lifted to everything a function may run on
+   caller-visible state ([calls]: a psec function called by name - dispatch tables are summaries whose effects are
+   calls of their members - or a method called on self / a parameter / module state, resolved conservatively by bare
+   method name; calls on objects created inside the call are not followed, they cannot touch caller-visible state) *)
+Theorem C18_closure_write_free : forall fs f g e,
+  policy_ok fs = true -> mutators_guarded fs = true -> In f fs ->
+  str_in (fn_name f) (all_mutators fs) = false -> reaches fs f g -> In e (fn_effects g) ->
+  direct_shared_write (all_mutating_methods fs) e = false.
+Proof. exact closure_write_free. Qed.
+Print Assumptions C18_closure_write_free.
+
+(* the side condition on the current tree: no mutator can be reached by name, or as a constructor / setter by bare
+   method name, from a function that is not a mutator *)
+Theorem C18_current_tree_guarded : mutators_guarded effects = true.
+Proof. rewrite <- mutators_guarded_fast_eq. vm_compute. reflexivity. Qed.
+Print Assumptions C18_current_tree_guarded.
+
+(* the computed call closure of the deterministic public API on the current tree: saturated (one more round adds
+   nothing), every call target has a summary, and it contains no mutator *)
+Theorem C18_api_closure :
+  let c := reach_list 10 effects required in
+  reach_list 1 effects c = c /\
+  unresolved effects c = [] /\
+  forallb (fun n => negb (str_in n (all_mutators effects))) c = true.
+Proof. vm_compute. repeat split. Qed.
+Print Assumptions C18_api_closure.
 
 (* the serialisation path of TR-31 is not among the mutators *)
 Example C18_wrap_is_not_a_mutator :
